@@ -616,11 +616,16 @@ func (c *InferCase) runImpl() string {
 			got := s.PropertyOrder
 			if strings.Join(got, "\x00") != strings.Join(want, "\x00") {
 				law16n = "0"
+				if os.Getenv("VERIF_DEBUG_NAMES") != "" {
+					fmt.Fprintf(os.Stderr, "%s order got %q want %q full %s\n", c.ID, got, want, fb)
+				}
 			}
 			// required: exactly the emitted fields without omitempty/omitzero, which are those the
 			// zero value still emits (the installed encoding/json has no omitzero: compare tags instead)
+			// (with several candidates for one name the tag oracle cannot tell which one the encoder
+			// uses; there the required list is compared with the model only)
 			wantReq := requiredByTags(c.Z.T)
-			if strings.Join(s.Required, "\x00") != strings.Join(wantReq, "\x00") {
+			if c.Z.Cat != "conflict" && strings.Join(s.Required, "\x00") != strings.Join(wantReq, "\x00") {
 				law16n = "0"
 			}
 			for _, k := range want {
